@@ -510,28 +510,37 @@ def emit_case(ctx, step):
         G.emit_table(tbl), E.pval(cur_r), term, E.blit(cmp_), E.outcome(out))
 
 
-def evaluate(items, tag="c01", per=150):
-    """items: [(ctx, step)].  Returns dict name -> index list."""
+def evaluate(items, tag="c01", per=150, n_small=0, per_small=600):
+    """items: [(ctx, step)].  Returns dict name -> index list.  The first n_small items (the lattice:
+    tiny classes and values) go into larger shards: loading the libraries dominates a small shard."""
     shards = []
-    for s in range(0, len(items), per):
-        chunk = items[s:s + per]
+    starts = list(range(0, n_small, per_small)) + list(range(n_small, len(items), per))
+    ends = starts[1:] + [len(items)]
+    for s, e_ in zip(starts, ends):
+        if s < n_small < e_:
+            e_ = n_small
+        chunk = items[s:e_]
         ctxs = []
         for ctx, _ in chunk:
             if ctx not in ctxs:
                 ctxs.append(ctx)
         body = emit_env(ctxs)
         body += "Definition cases : list scase := %s.\n" % E.lst(["\n " + emit_case(ctx, st) for ctx, st in chunk])
-        for fn in FNS:
-            body += "Eval vm_compute in (indices_where %s cases 0).\n" % fn
-        shards.append(body)
-    res = core.eval_cases(shards, tag, HEADER)
+        # one pass per case: the vector of the eight verdicts (Check/C01chk.v sflags; Check/C01chkProofs.v
+        # proves it equal, component-wise, to the eight separately defined functions FNS)
+        body += "Eval vm_compute in (map sflags cases).\n"
+        shards.append((body, len(chunk), s))
+    res = core.eval_cases([b for b, _, _ in shards], tag, HEADER)
     out = {fn: [] for fn in FNS}
     for si, (rc, so, se) in enumerate(res):
         vals = core.parse_eval(so)
-        if rc != 0 or len(vals) != len(FNS):
+        bits = re.findall(r"true|false", vals[0]) if (rc == 0 and len(vals) == 1) else []
+        if len(bits) != len(FNS) * shards[si][1]:
             raise RuntimeError("case shard %d failed to evaluate: %s" % (si, (so + se)[-1500:]))
-        for fn, v in zip(FNS, vals):
-            out[fn] += [si * per + i for i in core.parse_nat_list(v)]
+        for i in range(shards[si][1]):
+            for j, fn in enumerate(FNS):
+                if bits[i * len(FNS) + j] == "true":
+                    out[fn].append(shards[si][2] + i)
     return out
 
 
@@ -774,6 +783,31 @@ def replay(obj):
         ctx.close()
 
 
+def site_status(rep):
+    """Today's entry-site table (Gen/EntrySites.v, regenerated from the working tree): which rows the
+    model predicts to be holes (Check/C01chk.v unsafe_site_kinds, evaluated in Coq)."""
+    from harness.genmods import c01_entry_sites as ES
+    kinds = ["deserialize", "from_other_class(instance)", "from_other_class(mapping)", "shallow_clone_with_overrides",
+             "cast_to", "copy", "deepcopy", "pickle"]
+    rows, absent = ES.analyse()
+    table = {n: [k if isinstance(k, str) else "%s %s" % k for k in ks] for n, ks in rows}
+    rep.cov["entry_sites"] = {"rows": table, "default_unpickle": absent}
+    try:
+        (rc, so, se), = core.eval_cases(["Eval vm_compute in unsafe_site_kinds.\n"], "c01sites", HEADER)
+        vals = core.parse_eval(so)
+        if rc != 0 or len(vals) != 1:
+            raise RuntimeError((so + se)[-800:])
+        unsafe = [kinds[i] for i in core.parse_nat_list(vals[0])]
+    except Exception as ex:  # noqa
+        rep.obligation("entry-sites:today-safe", False, "could not evaluate: %s" % ex)
+        return None
+    rep.cov["entry_sites"]["unsafe"] = unsafe
+    rep.obligation("entry-sites:today-safe", not unsafe,
+                   "%d rows read off the source, all funnel into the validating constructor / recognised copy idioms" % len(rows)
+                   if not unsafe else "rows not safe: %s; table: %s" % (unsafe, table))
+    return unsafe
+
+
 # ------------------------------------------------------------------ the check
 
 def minimal_env(asts, chain):
@@ -812,7 +846,8 @@ def run(rep, tier):
     n_env = 160 if tier == "quick" else 1500
     per_env = 14 if tier == "quick" else 22
     max_depth = 2 if tier == "quick" else 3
-    proofs_ok, model_ok = core.standard_proof_obligations(rep, "C01", ["theories/Check/C01chk.vo"])
+    proofs_ok, model_ok = core.standard_proof_obligations(
+        rep, "C01", ["theories/Check/C01chk.vo", "theories/Check/C01chkProofs.vo"])
     items = []       # (ctx, step)
     where = []       # (env asts, chain, step index)
     ctxs = []
@@ -834,6 +869,8 @@ def run(rep, tier):
             rep.stat(stream, "outcome:" + okind)
         return steps
 
+    import time as _time
+    _t = {"start": _time.time()}
     # ---- stream 1: the boundary lattice, every near-miss value through every entry point (deterministic)
     n_lat = 0
     lat_decl = 0
@@ -861,6 +898,7 @@ def run(rep, tier):
     rep.cov["streams"].setdefault("lattice", {"evaluations": 0})
     rep.cov["streams"]["lattice"].update({"chains": n_lat, "declarations": lat_decl})
     n_lattice_items = len(items)
+    _t["lattice_run_s"] = round(_time.time() - _t["start"], 1)
 
     # ---- stream 2: random environments of related classes, random chains
     for idx in range(n_env):
@@ -891,12 +929,18 @@ def run(rep, tier):
                         "observed": repr(items[n_lattice_items][1][2])[:400]})
         env, chain, _ = where[-1]
         rep.sample({"chain": chain, "observed": repr(items[-1][1][2])[:400]})
+    _t["random_run_s"] = round(_time.time() - _t["start"] - _t["lattice_run_s"], 1)
+    unsafe_sites = site_status(rep) if model_ok else None
     if model_ok:
         r = None
         try:
-            r = evaluate(items)
+            _t0 = _time.time()
+            r = evaluate(items, n_small=n_lattice_items)
+            _t["coq_eval_s"] = round(_time.time() - _t0, 1)
         except RuntimeError as ex:
             rep.broken("correspondence:run_entry/coq-eval", str(ex))
+        _t.pop("start", None)
+        rep.cov["timing"] = _t
         if r is not None:
             s = rep.cov["streams"]["steps"]
             lat_idx = set(range(n_lattice_items))
@@ -959,6 +1003,12 @@ def run(rep, tier):
                             "python": python_src(ctx, chain[:si + 1], env)})
     for ctx in ctxs:
         ctx.close()
+    if unsafe_sites and not any(not v["no_input"] for v in rep.violations):
+        rep.broken("entry-sites:today-safe",
+                   "the source no longer funnels %s into the validating constructor / the recognised copy idioms "
+                   "(Gen/EntrySites.v; C01_entry_sites_today fails, C01_sites_characterisation gives the model's "
+                   "witness), but no generated input made typedpy hand out an invalid instance" % unsafe_sites,
+                   {"entry_sites": rep.cov.get("entry_sites")})
     if not proofs_ok:
         from harness.props.c17 import broken_build
         broken_build(rep)
